@@ -22,6 +22,9 @@ pub fn kind_of(n: &XmlNode) -> Kind {
         XmlNode::PI(_) => Kind::PI,
         XmlNode::EntityReference(_) => Kind::EntityRef,
         XmlNode::DocumentType(_) => Kind::DocType,
+        // the merged text node of the text_expanded view: a text node for navigation purposes
+        // (its identity is the id of its first piece)
+        XmlNode::ExpandedText(_) => Kind::Text,
         _ => Kind::Other,
     }
 }
@@ -118,7 +121,11 @@ impl Live {
             ids.insert((kind_of(n), n.id()), i);
         }
         let mut l = Live { doc, foreign, pool, is_foreign, ids, model: None, expanded };
-        l.model = Some(l.snapshot_model());
+        // the reference DOM tree models the raw view; in the merged-text view only the model-free
+        // monitors apply (no panic, atomic failure, tree invariants, order, serialization)
+        if !expanded {
+            l.model = Some(l.snapshot_model());
+        }
         Some(l)
     }
 
@@ -1473,7 +1480,7 @@ impl Space for DomBfs {
             }
             if self.expand && rep.changed && !panicked && !broken {
                 // C13 explores only states where model and implementation still agree
-                if !self.monitors.spec || live.model.is_some() {
+                if !self.monitors.spec || live.model.is_some() || self.docs[*doc].expanded {
                     sink.successor(format!("{}|{:016x}", doc, crate::engine::proto::fnv64(&live.state_key())), encode_state(*doc, &h2));
                 }
             }
